@@ -1517,7 +1517,7 @@ def run_thorough(ctx: Context) -> None:
             else:
                 ck.holds("C10.S1", f"{what}: owner is not a pairing (no shutdown state); its connection is closed by its own close()",
                          ctx.loc(g, n), nontrivial=False)
-    ck.require_min("C10.S1", "reconnect trigger sites outside the connection classes", n_sites, 3)
+    ck.require_min("C10.S1", "reconnect trigger sites outside the connection classes", n_sites, 2)
     lm = _loop(ctx, "C10.S1")
     if lm is None or lm.closing_attr is None:
         return
